@@ -1,38 +1,150 @@
 (* C03 — every request gets exactly one well-formed WSGI response.
-   Only statements; each is closed by [exact] of a lemma of proofs/C03_proofs.v.
+   Only statements; each is closed by [exact]/[apply] of lemmas of
+   proofs/C03_proofs.v and proofs/C03_wf.v.
 
-   Reading guide.  [wsgi env eh p] is the model of Ombott.wsgi serving one
-   request: [env] = the facts taken from the environ (HEAD?, wsgi.file_wrapper?,
-   JSON error pages?, URL, path), [eh] = the custom error handlers (ANY function
-   from status codes to handlers), [p] = the registered before/after hooks and
-   what routing + the handler do (ANY program of the grammar of model/Wsgi.v,
-   nesting included).  [all_events r] = everything a WSGI server observes:
-   the hook/handler calls, close() calls, the start_response call, and what
-   iterating and closing the returned object yields. *)
+   Reading guide.  [wsgi env eh p] is the model (model/Wsgi.v) of Ombott.wsgi
+   serving one request:
+     env = facts taken from the environ (HEAD?, wsgi.file_wrapper?, JSON error
+           pages?, URL text, decoded path);
+     eh  = the custom error handlers: ANY function from status codes to handlers;
+     p   = the before/after hooks in registration order and what routing and the
+           handler do: ANY program of the grammar out/item/resp/hres/routing,
+           nesting included.
+   [all_events r] = everything a WSGI server observes, in order: hook / handler
+   calls, close() calls, the start_response call, and what iterating and closing
+   the returned object yields.  No theorem below restricts env, eh or p except
+   by the hypotheses written in its statement.
+
+   [wf_program Pst Pn Pv Ptail p] says that every response object, response
+   mutation and iterable occurring anywhere in p (at any nesting depth)
+   satisfies: status pairs Pst, header names Pn, header values and cookie
+   renderings Pv, and the items after the first chunk of a bytes iterable Ptail.
+   The hypothesis on eh says that custom error handlers map well-formed errors
+   to well-formed values. *)
 From Coq Require Import String.
-From Verif Require Import lib.Base lib.Html model.Wsgi proofs.C03_proofs.
+From Verif Require Import lib.Base lib.Str lib.Utf8 lib.Html model.Wsgi proofs.C03_proofs proofs.C03_wf.
+From Verif Require gen.Gen.
 
-(* The response-casting loop never runs out of fuel: 1001 passes always
-   suffice (the code's own guard ends the loop at pass 1001). *)
+(* ---- termination ---- *)
+
+(* The casting loop never runs out of fuel: the code's own guard ends it at
+   pass 1001, and that path is itself a 500 (or the catch-all). *)
 Theorem C03_cast_terminates :
   forall env eh o st p,
-    cast env eh cast_fuel 1 o st <> COutOfFuel /\ wsgi env eh p <> WsOutOfFuel
-    /\ trace env eh p = Some (all_events (wsgi env eh p)).
-Proof. intros. split; [apply cast_terminates|split; [apply wsgi_terminates|apply trace_all_events]]. Qed.
+    cast env eh cast_fuel 1 o st <> COutOfFuel
+    /\ wsgi env eh p <> WsOutOfFuel
+    /\ trace env eh p = Some (all_events (wsgi env eh p))
+    /\ (forall cnt, 1000 < cnt -> eh 500%Z = None ->
+          match step env eh cnt o st with
+          | SDone _ st' _ => s_code st' = 500%Z /\ s_line st' = l500
+          | SCont _ _ => False
+          | SRaise => True
+          end).
+Proof.
+  intros. split; [apply cast_terminates|split; [apply wsgi_terminates|split; [apply trace_all_events|]]].
+  intros cnt Hc _. exact (step_guard_500 env eh cnt o st Hc).
+Qed.
 Print Assumptions C03_cast_terminates.
 
-(* start_response is called exactly once, whatever hooks, routing, handler,
-   nested responses and error handlers do — also when the catch-all answers
-   and even when the catch-all itself fails. *)
+(* ---- exactly one start_response ---- *)
+
+(* Whatever hooks, routing, handler, nested responses and error handlers do —
+   also when the catch-all answers, and even when the catch-all itself fails. *)
 Theorem C03_one_start_response :
   forall env eh p, count is_start (all_events (wsgi env eh p)) = 1.
 Proof. exact one_start_response. Qed.
 Print Assumptions C03_one_start_response.
 
-(* HEAD, every 1xx, 204 and 304: the returned object is the empty list, and
-   iterating it yields no chunk.  (The status is the one passed to
-   start_response: [line = s_line st], and C03_status_wf ties the digits of
-   the line to [s_code st].) *)
+(* ---- status line ---- *)
+
+(* If every status pair in the program is one the status setter produces for a
+   code 100..999 ([status_ok c l]: l = decimal c, a space, a reason), the line
+   passed to start_response is three digits (first not 0), a space, a reason;
+   and on the regular path it is the response object's line and its digits are
+   the response object's code. *)
+Theorem C03_status_wf :
+  forall env eh p,
+    wf_program status_ok Tr Tr TrI p ->
+    (forall c h r o, eh c = Some h -> wf_resp status_ok Tr Tr TrI r -> h r = ERet o ->
+                     wf_out status_ok Tr Tr TrI o) ->
+    forall line hl x, In (EvStart line hl x) (all_events (wsgi env eh p)) ->
+      status_line_wf line
+      /\ (x = false -> forall ev w st b, wsgi env eh p = WsOk ev w st b ->
+            line = s_line st /\ Z.of_nat (status_line_code line) = s_code st).
+Proof. exact status_wf. Qed.
+Print Assumptions C03_status_wf.
+
+(* The status setter produces such pairs: for every integer it accepts, and for
+   every custom line "NNN reason" without surrounding blanks (any phrase table). *)
+Theorem C03_status_setter_wf :
+  forall reason,
+    (forall c c' l, set_status reason (SCode c) = SOk c' l -> status_ok c' l)
+    /\ (forall s c l, sline_guard s -> set_status reason (SLine s) = SOk c l -> status_ok c l /\ l = s).
+Proof. intros reason. split; [apply set_status_code|apply set_status_line]. Qed.
+Print Assumptions C03_status_setter_wf.
+
+(* FINDING C03-status-line-shape: outside that guard the setter stores lines that
+   are not "NNN reason" ('+404 plus'). *)
+Theorem C03_status_setter_shape_refuted :
+  exists reason a c l, set_status reason a = SOk c l /\ ~ status_line_wf l.
+Proof. exact status_setter_shape_refuted. Qed.
+Print Assumptions C03_status_setter_shape_refuted.
+
+(* ---- header list ---- *)
+
+(* If the names the application uses are header tokens and its values / cookie
+   renderings contain no LF, CR, NUL (what _hval enforces; C14), every (name,
+   value) passed to start_response has a token name and a Latin-1 value without
+   LF, CR, NUL — including what the framework adds (Content-Length, Content-Type,
+   Allow, Set-Cookie, the catch-all's header). *)
+Theorem C03_headers_wf :
+  forall env eh p,
+    wf_program Tst name_ok hval_ok TrI p ->
+    (forall c h r o, eh c = Some h -> wf_resp Tst name_ok hval_ok TrI r -> h r = ERet o ->
+                     wf_out Tst name_ok hval_ok TrI o) ->
+    forall line hl x, In (EvStart line hl x) (all_events (wsgi env eh p)) ->
+      Forall (fun kv => name_ok (fst kv) /\ wire_ok (snd kv)) hl.
+Proof. exact headers_wf. Qed.
+Print Assumptions C03_headers_wf.
+
+(* ---- body chunks are byte strings ---- *)
+
+(* If in every bytes iterable of the program the items after the first chunk are
+   bytes (up to the first one that raises), every chunk the server gets from the
+   returned object is a byte string.  (str iterables need no hypothesis: the
+   framework encodes them, or the iteration stops with an exception.) *)
+Theorem C03_body_bytes :
+  forall env eh p,
+    wf_program Tst Tr Tr bytes_tail_ok p ->
+    (forall c h r o, eh c = Some h -> wf_resp Tst Tr Tr bytes_tail_ok r -> h r = ERet o ->
+                     wf_out Tst Tr Tr bytes_tail_ok o) ->
+    forall cs, In (EvBody cs) (all_events (wsgi env eh p)) -> forallb is_cbytes cs = true.
+Proof. exact body_bytes. Qed.
+Print Assumptions C03_body_bytes.
+
+(* ---- Content-Length written by the framework ---- *)
+
+(* [wsgi ... = WsOk ev w st true]: the last flag says the framework's
+   setdefault('Content-Length') stored its value (no Content-Length was there).
+   Then, unless the body is suppressed, the returned object is a list of byte
+   strings and every Content-Length header passed to start_response is the
+   decimal total length of those byte strings. *)
+Theorem C03_content_length_exact :
+  forall env eh p ev w st line hl v,
+    wsgi env eh p = WsOk ev w st true ->
+    In (EvStart line hl false) ev ->
+    e_head env = false -> nobody (s_code st) = false ->
+    In (n_content_length, v) hl ->
+    exists cs, w = WList cs /\ consume w st = [EvBody (map CBytes cs)]
+               /\ v = dec_str_of_nat (length (concat cs)).
+Proof. exact content_length_exact. Qed.
+Print Assumptions C03_content_length_exact.
+
+(* ---- no body ---- *)
+
+(* HEAD (on the regular path and in the catch-all), every 1xx, 204, 304: the
+   returned object is the empty list.  The no-body test is the one read from
+   the source (Gen.nobody_codes / Gen.nobody_ranges). *)
 Theorem C03_no_body :
   forall env eh p ev w st b,
     wsgi env eh p = WsOk ev w st b ->
@@ -50,11 +162,19 @@ Proof.
 Qed.
 Print Assumptions C03_no_body.
 
-(* close(): never more than one close() call in the whole request, and the
-   object that became the response body (a file-like handed to a wrapper, or
-   the iterable whose first non-empty item is a str/bytes chunk) is closed
-   exactly once — by the framework when the body is suppressed, by the server
-   otherwise, never both. *)
+(* Record of the repaired defect F3: the set the code used to test lets 102 through. *)
+Theorem C03_F3_old_status_set_refuted :
+  exists c, (100 <= c < 200)%Z /\ existsb (Z.eqb c) [100; 101; 204; 304]%Z = false.
+Proof. exists 102%Z. split; [lia|reflexivity]. Qed.
+Print Assumptions C03_F3_old_status_set_refuted.
+
+(* ---- close ---- *)
+
+(* Never more than one close() call in the whole request; and the object that
+   became the response body (a file-like handed to a wrapper, or the iterable
+   whose first non-empty item is a str/bytes chunk: [closer w0 = Some id]) is
+   closed exactly once — by the framework when the body is suppressed, by the
+   server otherwise, never both. *)
 Theorem C03_close_once :
   forall env eh p,
     count is_close (all_events (wsgi env eh p)) <= 1
@@ -70,7 +190,74 @@ Proof.
 Qed.
 Print Assumptions C03_close_once.
 
-(* non-vacuity: a closable iterator under GET (closed by the server) and under HEAD (closed by the framework) *)
+(* The stronger reading in DESIGN (every iterable from which an item was taken is
+   closed) is false of the code: an iterable whose first item is a response
+   object is abandoned by _cast and never closed. *)
+Theorem C03_close_every_touched_iterable_refuted :
+  exists env eh p, trace env eh p <> None /\
+    match trace env eh p with
+    | Some ev => count is_close ev = 0
+    | None => False
+    end
+    /\ exists id items ty, p_routing p = ROk [] (mkH [] (HRet (OIter id true items ty))) /\ items <> [].
+Proof. exact abandoned_iterable_not_closed. Qed.
+Print Assumptions C03_close_every_touched_iterable_refuted.
+
+(* ---- failures become a 500, nothing escapes ---- *)
+
+(* (1) With a decoded path (scalar values) or under HEAD no exception leaves
+       Ombott.wsgi.
+   (2) Without a custom 500 handler, a crash of a hook / route hook / handler
+       ([handle] built the 500 error object) and (3) a crash of iter(out) or of
+       the first next() that would deliver an item are answered with status
+       "500 Internal Server Error" (or the catch-all's "500 INTERNAL SERVER ERROR"). *)
+Theorem C03_500_not_escape :
+  forall env eh p,
+    (Forall scalar (e_path env) \/ e_head env = true -> forall ev, wsgi env eh p <> WsEscaped ev)
+    /\ (eh 500%Z = None ->
+        forall evH st0 o, handle p = (evH, st0, o) ->
+          (exists j, o = OHttp true (err_handle500 j)) \/ crashes_at_first_next o ->
+          forall line hl x, In (EvStart line hl x) (all_events (wsgi env eh p)) ->
+            line = l500 \/ line = l_catchall).
+Proof.
+  intros env eh p. split; [apply never_escapes|].
+  intros H5 evH st0 o Hh [[j ->]|Hc].
+  - exact (crash_in_handle_500 env eh H5 p evH st0 j Hh).
+  - exact (crash_at_first_next_500 env eh H5 p evH st0 o Hh Hc).
+Qed.
+Print Assumptions C03_500_not_escape.
+
+(* ---- hooks ---- *)
+
+(* [ran hs] = number of hooks of hs (in call order) that get called: up to and
+   including the first failing one.  Before hooks: registration order, once each,
+   that prefix, all before routing; routing and at most one handler call only if
+   no before hook failed.  After hooks: reverse registration order, once each,
+   after everything else, for every outcome (404, 405, failing before hook,
+   crash); all of them unless an after hook itself fails. *)
+Theorem C03_hooks_lifecycle :
+  forall p,
+    exists evM,
+      fst (fst (handle p))
+      = map EvHookB (firstn (ran (p_before p)) (seq 0 (length (p_before p))))
+        ++ evM
+        ++ map EvHookA (firstn (ran (rev (p_after p))) (rev (seq 0 (length (p_after p)))))
+      /\ (all_ok (p_before p) = false -> evM = [])
+      /\ (all_ok (p_before p) = true ->
+           exists evR, evM = EvRouted :: evR /\ forallb mid_event evR = true /\ count is_handler evR <= 1)
+      /\ (all_ok (p_before p) = true -> ran (p_before p) = length (p_before p))
+      /\ (all_ok (rev (p_after p)) = true -> ran (rev (p_after p)) = length (p_after p)).
+Proof.
+  intros p. destruct (hooks_lifecycle p) as [evM [A [B C]]]. exists evM.
+  split; [exact A|split; [exact B|split; [exact C|split]]].
+  - apply ran_all_ok.
+  - intros H. rewrite (ran_all_ok _ H). apply rev_length.
+Qed.
+Print Assumptions C03_hooks_lifecycle.
+
+(* ---- non-vacuity ---- *)
+
+(* a closable iterator under GET (closed by the server) and under HEAD (closed by the framework) *)
 Example C03_close_once_nonvacuous :
   let it := OIter 7 true [IYield (OStr []); IYield (OStr [104;105]%N); IYield (OStr [33]%N)] [] in
   let p := mkProg [] [] (ROk [] (mkH [] (HRet it))) in
@@ -83,3 +270,59 @@ Example C03_close_once_nonvacuous :
           EvStart (lit "200 OK") [(lit "Content-Type", lit "text/html; charset=UTF-8")] false;
           EvBody []].
 Proof. vm_compute. split; reflexivity. Qed.
+
+(* a program meeting the hypotheses of the status / header / chunk theorems: a
+   response object with a custom line, a header, a cookie and a bytes iterator,
+   raised by the handler, one before and one after hook, a 102 error page *)
+Definition demo_resp : resp :=
+  mkResp 299 (lit "299 Fine") [(lit "X-A", [lit "v"])] [(lit "sid", lit "sid=1")]
+         (OIter 3 true [IYield OFalsy; IYield (OBytes [1;2]%N); IYield (OBytes [3]%N)] []) [] None [] false.
+Definition demo_prog : program :=
+  mkProg [mkH [MSetHeader (lit "X-B") (lit "w")] (HRet OFalsy)] [mkH [] (HRet OFalsy)]
+         (ROk [] (mkH [MStatus 102 (lit "102 Processing")] (HRaiseHttp false demo_resp))).
+Ltac wf_crush S102 S299 :=
+  repeat match goal with
+         | |- _ /\ _ => split
+         | |- True => exact I
+         | |- Forall _ [] => constructor
+         | |- Forall _ (_ :: _) => constructor
+         | |- name_ok _ => reflexivity
+         | |- hval_ok _ => reflexivity
+         | |- Tr _ => exact I
+         | |- Tst _ _ => exact I
+         | |- TrI _ => exact I
+         | |- wf_hprog _ _ _ _ _ => unfold wf_hprog
+         | |- wf_hres _ _ _ _ _ => unfold wf_hres
+         | |- wf_mut _ _ _ _ => unfold wf_mut
+         | |- hs_ok _ _ _ => unfold hs_ok
+         | |- cs_ok _ _ => unfold cs_ok
+         | |- status_ok 102 _ => exact S102
+         | |- status_ok 299 _ => exact S299
+         | _ => progress cbn
+         end.
+
+Example C03_wf_nonvacuous :
+  wf_program status_ok Tr Tr TrI demo_prog
+  /\ wf_program Tst name_ok hval_ok TrI demo_prog
+  /\ wf_program Tst Tr Tr bytes_tail_ok demo_prog
+  /\ trace (mkEnv false false false [] []) (fun _ => None) demo_prog
+     = Some [EvHookB 0; EvRouted; EvHandler; EvHookA 0;
+             EvStart (lit "299 Fine") [(lit "X-A", lit "v"); (lit "Content-Type", lit "text/html; charset=UTF-8");
+                                       (lit "Set-Cookie", lit "sid=1")] false;
+             EvBody [CBytes [1;2]%N; CBytes [3]%N]; EvClose 3].
+Proof.
+  assert (S299 : status_ok 299 (lit "299 Fine")) by (split; [lia|exists (lit "Fine"); reflexivity]).
+  assert (S102 : status_ok 102 (lit "102 Processing")) by (split; [lia|exists (lit "Processing"); reflexivity]).
+  split; [|split; [|split; [|vm_compute; reflexivity]]];
+    unfold demo_prog, demo_resp, wf_program, wf_hprog, wf_routing, wf_hres, wf_mut, hs_ok, cs_ok; wf_crush S102 S299.
+Qed.
+
+(* the 1000-iteration guard is reachable and ends in a 500 page *)
+Example C03_guard_nonvacuous :
+  let e := mkResp 500 l500 [] [] (OStr (lit "x")) (lit "x") (Some (lit """x""")) (lit """None""") false in
+  match wsgi (mkEnv false false true [] []) (fun c => if Z.eqb c 500 then Some (fun r => ERet (OHttp true r)) else None)
+             (mkProg [] [] (ROk [] (mkH [] (HRet (OHttp true e))))) with
+  | WsOk ev (WList [b]) st _ => s_code st = 500%Z /\ In (EvStart l500 [(n_content_type, v_app_json); (n_content_length, lit "71")] false) ev
+  | _ => False
+  end.
+Proof. vm_compute. split; [reflexivity|]. right. right. left. reflexivity. Qed.
